@@ -41,6 +41,7 @@ snapshot taken before the removal says it held nothing; C09.5 instances leave
 the cell only through Loader.remove_app. Fourth round: C09.2 a victim of the
 eviction scan keeps its identity (it may return to the same server and expiry,
 which publishes nothing).
+Sweep: C09.3 both publication passes are never cut short; C09.1 the empty stand-in for the model side of the start-up difference is used only under the fact that the server is not a member of the cell.
 Does NOT decide equality of the whole stored tree with the whole model over
 histories of ZooKeeper events.
 """
@@ -952,4 +953,13 @@ REFACTORS = [
         _LOGGER.debug('placement data of %s', app)
         identity_group_ref = self.cell.apps[app].identity_group_ref
 """)]),
+]
+
+# sweep-driven clauses (DESIGN 9.7)
+MUTANTS += [
+    ('startup-member-test-inverted', [(_M, """            if servername in servers:
+                self.backend.ensure_exists(placement_node)
+""", """            if servername not in servers:
+                self.backend.ensure_exists(placement_node)
+""")], 'C09.1'),
 ]
